@@ -24,4 +24,51 @@ theorem dict_init_is_source (C : Model.PyLCD.Ctx K V) (a : Arg K V) (kv vv : Opt
     rcases kv with _ | k <;> rcases vv with _ | v <;> rcases ns with _ | n <;> rcases a with _ | ps | ps <;>
       simp [Arg.items] at hv <;> pylcd_exec [hv]
 
+/-- The translated `TraitDict.__init__` body run as `super().__init__(value, key_validator=self._key_validator,
+value_validator=self._value_validator, notifiers=[self.notifier])` on an object `o` under construction. -/
+theorem base_run (C : Model.PyLCD.Ctx K V) (a : Arg K V) (o : Obj K V) :
+    (let r := Model.PyLCD.exec C Option.none Generated.CtorD.traitDictInit.body
+        ([some a.val, some (.vfn .own), some (.vfn .own), some (.nlist .ownAlias)]
+          ++ List.replicate (Generated.CtorD.traitDictInit.nslots - 4) Option.none, o)
+     (r.1.2, r.2))
+    = match valPairs C.ownK C.ownV 0 a.items with
+      | .error e => ({ o with keyValidator := .own, valueValidator := .own, notifiers := .ownAlias }, .raised e)
+      | .ok ps => ({ o with items := Py.Dict.ofPairs ps, keyValidator := .own, valueValidator := .own,
+                            notifiers := .ownAlias }, .next) := by
+  rcases a with _ | ps | ps
+  · simp [Generated.CtorD.traitDictInit, Model.PyLCD.exec, Model.PyLCD.eval, Model.PyLCD.getVar, Model.PyLCD.truthy,
+      Model.PyLCD.setAttrObj, Arg.val, Arg.items, Model.PyLCD.Ctx.kOf, Model.PyLCD.Ctx.vOf, valPairs]
+  · cases hv : valPairs C.ownK C.ownV 0 ps <;>
+    simp [Generated.CtorD.traitDictInit, Model.PyLCD.exec, Model.PyLCD.eval, Model.PyLCD.getVar, Model.PyLCD.truthy,
+      Model.PyLCD.setAttrObj, Arg.val, Arg.items, Model.PyLCD.Ctx.kOf, Model.PyLCD.Ctx.vOf, hv]
+  · cases hv : valPairs C.ownK C.ownV 0 ps <;>
+    simp [Generated.CtorD.traitDictInit, Model.PyLCD.exec, Model.PyLCD.eval, Model.PyLCD.getVar, Model.PyLCD.truthy,
+      Model.PyLCD.setAttrObj, Arg.val, Arg.items, Model.PyLCD.Ctx.kOf, Model.PyLCD.Ctx.vOf, hv]
+
+theorem dict_object_init_is_source (C : Model.PyLCD.Ctx K V) (t : Option Bool) (owner : Bool) (a : Arg K V) :
+    runDictObjectInit Generated.CtorD.traitDictObjectInit Generated.CtorD.traitDictInit C t owner a
+      = dictObjectInit C t owner a := by
+  have hb := fun o => base_run C a o
+  unfold runDictObjectInit
+  have hc : ¬ (Generated.CtorD.traitDictObjectInit.nparams ≠ 4 ∨ Generated.CtorD.traitDictObjectInit.nslots < 4 ∨
+      Generated.CtorD.traitDictInit.nparams ≠ 4 ∨ Generated.CtorD.traitDictInit.nslots < 4) := by decide
+  rw [if_neg hc]
+  cases hv : valPairs C.ownK C.ownV 0 a.items with
+  | error e =>
+    simp only [List.cons_append, List.nil_append, hv, Prod.mk.injEq] at hb
+    have hb1 := fun o => (hb o).1
+    have hb2 := fun o => (hb o).2
+    rcases t with _ | _ | _ <;> cases owner <;>
+      simp [Generated.CtorD.traitDictObjectInit, Model.PyLCD.exec, Model.PyLCD.eval, Model.PyLCD.getVar,
+        Model.PyLCD.truthy, Model.PyLCD.setAttrObj, Model.PyLCD.optVal, hb1, hb2, dictObjectInit,
+        Model.PyLCD.finish, hv]
+  | ok ps =>
+    simp only [List.cons_append, List.nil_append, hv, Prod.mk.injEq] at hb
+    have hb1 := fun o => (hb o).1
+    have hb2 := fun o => (hb o).2
+    rcases t with _ | _ | _ <;> cases owner <;>
+      simp [Generated.CtorD.traitDictObjectInit, Model.PyLCD.exec, Model.PyLCD.eval, Model.PyLCD.getVar,
+        Model.PyLCD.truthy, Model.PyLCD.setAttrObj, Model.PyLCD.optVal, hb1, hb2, dictObjectInit,
+        Model.PyLCD.finish, hv]
+
 end TraitsVerif.Lemmas.PyLCtorDict
